@@ -344,6 +344,70 @@ def h_struct(ctx):
     ctx.outcome(what)
     ctx.nontrivial()
 
+# ---- array level: every metric that takes obs/fcst arrays ------------------------------------------------------------------
+_ARRAY_METRICS = None
+
+
+def array_metrics():
+    global _ARRAY_METRICS
+    if _ARRAY_METRICS is None:
+        import verif.metric
+        out = []
+        for name, cls in verif.metric.get_all():
+            if cls in (verif.metric.ObsFcstBased, verif.metric.Contingency):
+                continue
+            if issubclass(cls, verif.metric.ObsFcstBased):
+                out.append((name, cls(), False))
+            elif issubclass(cls, verif.metric.Contingency):
+                out.append((name, cls(), True))
+        _ARRAY_METRICS = out
+    return _ARRAY_METRICS
+
+
+def h_arrays(ctx):
+    """compute_from_obs_fcst on arrays with NaN at arbitrary (different) positions of obs and fcst: the score equals the score
+    of the same arrays with every pair that has a NaN deleted (no reference formula needed)"""
+    import verif.interval
+    n = ctx.choose("length", ctx.params["lengths"], free=True)
+    alpha = [0.5, 2.0, 3.0] if (n <= 2 or ctx.params.get("full_alphabet")) else [0.5, 3.0]
+    o = [ctx.choose("obs%d" % i, alpha, free=True) for i in range(n)]
+    f = [ctx.choose("fcst%d" % i, alpha, free=True) for i in range(n)]
+    slots = [("obs", i) for i in range(n)] + [("fcst", i) for i in range(n)]
+    masks = [()] + [(a,) for a in slots] + [(a, b) for x, a in enumerate(slots) for b in slots[x + 1:]]
+    mask = ctx.choose("nan", masks, free=True)
+    on, fn = list(o), list(f)
+    for which, i in mask:
+        (on if which == "obs" else fn)[i] = float("nan")
+    keep = [i for i in range(n) if not (math.isnan(on[i]) or math.isnan(fn[i]))]
+    if not keep:
+        ctx.outcome("no-valid-pair")
+        return
+    od, fd = [o[i] for i in keep], [f[i] for i in keep]
+    iv = verif.interval.Interval(1.5, np.inf, False, False)
+    sig = []
+    for name, m, needs_iv in array_metrics():
+        args1 = (np.array(on, dtype=float), np.array(fn, dtype=float)) + ((iv,) if needs_iv else ())
+        args2 = (np.array(od, dtype=float), np.array(fd, dtype=float)) + ((iv,) if needs_iv else ())
+        k1, r1, s1, _ = H.quiet_call(m.compute_from_obs_fcst, *args1)
+        k2, r2, s2, _ = H.quiet_call(m.compute_from_obs_fcst, *args2)
+        if k2 != "ok":
+            continue                         # the NaN-free call is judged by C05 / C06 / C19
+        if k1 != "ok":
+            ctx.fail("arrays:%s:%s:%s" % (name, k1, s1), obs=on, fcst=fn)
+            continue
+        a = float(r1) if r1 is not np.ma.masked else float("nan")
+        b = float(r2) if r2 is not np.ma.masked else float("nan")
+        same = (math.isnan(a) and math.isnan(b)) or a == b or abs(a - b) <= 1e-12 * max(1.0, abs(b))
+        if not same:
+            ctx.fail("arrays:%s:differs-from-the-score-with-the-missing-pairs-deleted" % name.lower(), obs=on, fcst=fn, with_nan=a, deleted=b)
+        sig.append(None if math.isnan(b) else round(b, 9))
+        ctx.count()
+    if len(mask) == 2 and mask[0][0] != mask[1][0] and mask[0][1] != mask[1][1]:
+        ctx.flag("nan-at-different-positions")
+    ctx.observe((tuple(on), tuple(fn)))
+    ctx.outcome("nan=%d" % len(mask))
+    ctx.nontrivial(len(mask) > 0)
+
 
 def plan(tier):
     q = tier == "quick"
@@ -354,7 +418,8 @@ def plan(tier):
                                    **({"encs_first": ["-999", "NA", "inf", "<absent-row>"]} if q else {}))),
          ("nc-2", h_single, dict({"via": "nc", "marks": 2, "fields": ["fcst", "e0"] if q else ["obs", "fcst", "pit", "p1", "q0.1", "e0", "e1"]},
                                  **({"encs_first": ["nan", "masked", "fill", "-inf"]} if q else {}))),
-         ("text-struct", h_struct, {"via": "text"}), ("nc-struct", h_struct, {"via": "nc"})]
+         ("text-struct", h_struct, {"via": "text"}), ("nc-struct", h_struct, {"via": "nc"}),
+         ("arrays", h_arrays, {"lengths": [2, 3] if q else [2, 3, 4], "full_alphabet": not q})]
     return p
 
 
@@ -365,6 +430,12 @@ def run(tier, only=None):
             continue
         t0 = time.time()
         st = explore.explore(h, mode="full", params=params, repo_root=core.REPO, time_cap=(240 if tier == "quick" else 3000))
+        if name == "arrays":
+            subs.append(core.Sub.from_e1(name, st, bound="all obs/fcst vector pairs of length %r over {0.5, 2, 3} (quick: {0.5, 3} beyond length 2) x every placement of at most two NaN" % (params["lengths"],),
+                                         rule="one execution = one vector pair with NaN; 47 array-level metrics (22 deterministic, 25 contingency at threshold 1.5) must equal "
+                                              "their score on the pairs without NaN; non-trivial = at least one NaN",
+                                         required_flags=("nan-at-different-positions",), wall=time.time() - t0))
+            continue
         subs.append(core.Sub.from_e1(name, st, bound="full over (input, field, cell) x encoding %r" % ({k: v for k, v in params.items() if k != "fields"},),
                                      rule="one execution = a dataset with the marked cell(s) written in the chosen encoding; 13 request sets x 4 axes vs the reference, "
                                           "and all metrics x 3 axes x 2 inputs vs the canonical in-memory dataset; non-trivial = the marked case was valid before marking",
